@@ -492,11 +492,11 @@ func c27parked() int {
 func TestVerif_C27(t *testing.T) {
 	run := verifkit.Start(t, "C27", "config")
 	defer run.Finish()
-	run.Rule("seeded histories over a real fileConfig on temp files: per step each config file and the rules file get one of {unchanged, restore-applied, valid change, deprecated-setting (warning) change, validation-invalid, unparsable, unreadable}; startup acceptance is measured with NewConfig on the same files and the same version string; Reload is triggered once, from 2-8 goroutines at once, from 2-8 goroutines under lock pinning (driver holds the config's read lock until runtime.Stack shows every reloader returned or parked on a sync primitive below Reload), or as a stale-read overlap (sources served from an httptest URL; one reloader is held inside its read after the handler captured the old body, the sources are then changed and 1-3 further reloaders run until returned/parked, the first is released, all are joined, then one quiet reload); non-trivial = history with at least one applied and one refused change; distinct = distinct (kinds, mode) step sequences")
+	run.Rule("seeded histories over a real fileConfig on temp files: per step each config file and the rules file get one of {unchanged, restore-applied, valid change, deprecated-setting (warning) change, validation-invalid, unparsable, unreadable}; startup acceptance is measured with NewConfig on the same files and the same version string; Reload is triggered once, from 2-8 goroutines at once, from 2-8 goroutines under lock pinning (driver holds the config's read lock until runtime.Stack shows every reloader returned or parked on a sync primitive below Reload), or as a stale-read overlap (sources served from an httptest URL; one reloader is held inside its read after the handler captured the old body, the sources are then changed and 1-3 further reloaders run until returned/parked, the first is released, all are joined, then one quiet reload), or as a late-listener step (a reloader is held inside its read of the already changed sources while one more listener is registered); non-trivial = history with at least one applied and one refused change; distinct = distinct (kinds, mode) step sequences")
 	run.Assume("NewConfig(opts, version) on the same files in the same step is what 'startup would accept' means; the version string is the one the instance was started with")
 	run.Assume("a changed file always differs in a configuration value (comment-only edits are not generated)")
 
-	run.Cases("history", run.N(40, 200), func(i int, rng *verifkit.Rand) { c27history(t, run, rng) })
+	run.Cases("history", run.N(32, 200), func(i int, rng *verifkit.Rand) { c27history(t, run, rng) })
 
 	// The race detector's view of overlapping reloads goes into the evidence as a counter
 	// (the verdict on races belongs to C35; here the refuting observation is the double
@@ -622,14 +622,19 @@ func c27history(t *testing.T, run *verifkit.Run, rng *verifkit.Rand) {
 	}
 
 	for st := 0; st < steps; st++ {
-		if rng.Chance(0.15) && len(listeners) < 4 {
+		if rng.Chance(0.15) && len(listeners) < 4 { // (late-listener steps may add more)
 			addListener()
 		}
 		rec := c27step{Step: st}
 
 		mode := verifkit.Pick(rng, "single", "single", "concurrent", "pinned")
-		if srv != nil && rng.Chance(0.45) {
-			mode = "stale-read"
+		if srv != nil {
+			switch x := rng.Intn(100); {
+			case x < 35:
+				mode = "stale-read"
+			case x < 60:
+				mode = "late-listener"
+			}
 		}
 		// ---- stale-read, first half: reloader R1 reads the sources as they are NOW and
 		// is held inside its read of one URL source (the handler has already captured the
@@ -823,6 +828,7 @@ func c27history(t *testing.T, run *verifkit.Run, rng *verifkit.Rand) {
 		}
 
 		// ---- trigger
+		lateListener := -1 // index of a listener registered while a reloader was parked in its read
 		g := 1
 		if mode == "stale-read" {
 			g = rng.Range(1, 3) // reloaders started after the change, besides R1
@@ -875,6 +881,32 @@ func c27history(t *testing.T, run *verifkit.Run, rng *verifkit.Rand) {
 				return
 			}
 			run.Count("pinned_steps", 1)
+		case "late-listener":
+			// One reloader reads the (already rewritten) sources and is held inside its
+			// read of a URL source; while it is there - strictly before it can have
+			// validated or committed anything - the driver registers one more listener
+			// (RegisterReloadCallback has returned before the release). If this reload
+			// applies the change, that listener was registered before the change was
+			// applied and must be notified like every other one.
+			armed := urlSources[rng.Intn(len(urlSources))]
+			parked, rel := srv.arm(armed.urlPath)
+			done := make(chan error, 1)
+			go func() { done <- c.Reload() }()
+			select {
+			case <-parked:
+				addListener()
+				marks = append(marks, 0)
+				lateListener = len(listeners) - 1
+				run.Count("late_listener_registered_while_reload_parked_in_read", 1)
+			case err := <-done: // failed before reaching the armed source
+				done <- err
+			case <-time.After(60 * time.Second):
+				rel()
+				run.Inconclusive("late-listener: reloader neither reached its read nor returned")
+				return
+			}
+			rel()
+			errs[0] = <-done
 		case "stale-read":
 			// second half: reloaders that read the NEW content run while R1 is still
 			// inside its read. They may finish on their own or have to wait for R1 (both
@@ -1033,7 +1065,10 @@ func c27history(t *testing.T, run *verifkit.Run, rng *verifkit.Rand) {
 				}
 				run.Count("notifications_checked", 1)
 			case expectApply && len(calls) == 0:
-				if gotNew {
+				if gotNew && li == lateListener {
+					run.Violation("C27/Reload/listener-registered-during-reload-read-not-notified",
+						fmt.Sprintf("listener %d was registered (RegisterReloadCallback returned) while the reloader was still reading its sources; that reload applied the change and notified the other %d listeners, but not this one", li, len(listeners)-1), witness())
+				} else if gotNew {
 					run.Violation("C27/Reload/listener-not-notified-of-applied-change",
 						fmt.Sprintf("listener %d of %d got no callback for an applied change", li, len(listeners)), witness())
 				}
